@@ -17,7 +17,7 @@
       sqlparser/insertintostatement.go:31-121   InsertIntoStatement.Materialize: nothing written for an empty result;
                                                  the target's columns (or the INSERT column list) must all be present in
                                                  the result; Project to them; executor.WriteCSM
-      executor/writer.go:262-364                WriteCSM on a fixed-length bucket, as the slot map it produces: a row
+      executor/writer.go:262-365                WriteCSM on a fixed-length bucket, as the slot map it produces: a row
                                                  lands in the slot of the target timeframe containing its Epoch (the
                                                  later row wins), and reads back with the slot's start time
 
@@ -197,24 +197,19 @@ Definition insert_into (ttfs : Z) (tsc : schema) (tstore : list row) (tnames : l
           else if negb (forallb (fun n => existsb (String.eqb n) (t_names res)) tnames) then Rejected   (* "Unable to find these columns" *)
           else
             let p := t_project tnames res in
-            (* WriteCSM: the projected columns must be exactly Epoch + the bucket's columns, in any order;
-               SerializeColumnsToRows then lays the row out in the SERIES' order (Epoch first), i.e. the bucket's
-               j-th column receives the series' j-th non-Epoch column whatever its name *)
+            (* WriteCSM: the projected columns must be exactly Epoch + the bucket's columns, in any order; the rows
+               are then laid out in the BUCKET's column order, columns fetched by name (SerializeColumnsToRows with
+               the bucket's data shapes, /repo commit 0d39b4d; before it the series' own order was used) *)
             if negb ((List.length (t_names p) =? S (List.length tsc))%nat
                      && forallb (fun n => existsb (String.eqb n) (t_names p)) (epoch_name :: map fst tsc)) then Rejected
-            else match t_names p with
-                 | first :: others =>
-                     if negb (String.eqb first epoch_name) then Rejected       (* not modelled: Epoch not first *)
-                     else
-                       let ep := match t_get epoch_name p with Some c => c | None => [] end in
-                       let cols := map (fun n => match t_get n p with Some c => c | None => [] end) others in
-                       (* WriteCSM starts with cs.GetTime(): the Epoch column must be a []int64 ("unexpected data
-                          type for Epoch column"); the model sees float cells, not the width of integer cells *)
-                       if negb (forallb (fun c => match c with VI _ => true | _ => false end) ep) then Rejected else
-                       Ok (fold_left (fun st ev => lww (trunc_tf ttfs (fst ev)) (snd ev) st)
-                                     (tbl_rows (List.length ep) ep cols) tstore)
-                 | [] => Rejected
-                 end
+            else
+              let ep := match t_get epoch_name p with Some c => c | None => [] end in
+              let cols := map (fun n => match t_get n p with Some c => c | None => [] end) (map fst tsc) in
+              (* WriteCSM starts with cs.GetTime(): the Epoch column must be a []int64 ("unexpected data type for
+                 Epoch column"); the model sees float cells, not the width of integer cells *)
+              if negb (forallb (fun c => match c with VI _ => true | _ => false end) ep) then Rejected else
+              Ok (fold_left (fun st ev => lww (trunc_tf ttfs (fst ev)) (snd ev) st)
+                            (tbl_rows (List.length ep) ep cols) tstore)
       end
   end.
 
@@ -295,18 +290,20 @@ Fixpoint strs_eqb (a b : list string) : bool :=
   | _, _ => false
   end.
 
-(** insert-column-list-reordered: an INSERT column list in another order than the bucket's columns is written
-    positionally: values land in the wrong columns *)
-Definition insert_list_reordered (tsc : schema) (icols : option (list string)) : bool :=
+(** an INSERT column list must name exactly Epoch and the target's columns, in any order
+    (a strict subset always fails WriteCSM's length check) *)
+Definition insert_list_ok (tsc : schema) (icols : option (list string)) : bool :=
   match icols with
-  | None => false
-  | Some l => negb (strs_eqb l (epoch_name :: map fst tsc))
+  | None => true
+  | Some l => (List.length l =? S (List.length tsc))%nat
+              && forallb (fun n => existsb (String.eqb n) l) (epoch_name :: map fst tsc)
+              && forallb (fun n => existsb (String.eqb n) (epoch_name :: map fst tsc)) l
   end.
 
 Definition guard_ins (sc : schema) (s : sel) (ttfs : Z) (tsc : schema) (tstore : list row) (icols : option (list string)) : bool :=
   (0 <? ttfs) && nodup_names (epoch_name :: map fst tsc)
   && forallb (fun r => (r_epoch r mod ttfs =? 0) && cells_ok tsc (r_vals r)) tstore && sorted_epochs tstore
-  && negb (insert_list_reordered tsc icols)
+  && insert_list_ok tsc icols
   && forallb (fun nt => match sel_type sc s (fst nt) with Some ty => ty =? snd nt | None => false end) tsc
   && match sel_type sc s epoch_name with Some _ => (match s with SelAll => true | SelList l =>
           String.eqb (match find (fun it => String.eqb (out_name it) epoch_name) l with Some it => fst it | None => EmptyString end) epoch_name end)
